@@ -466,7 +466,7 @@ func main() {
 		r.Write(*out)
 		return
 	}
-	nh := 4000
+	nh := 40000
 	if *tier == "thorough" {
 		nh = 400000
 	}
